@@ -8,7 +8,7 @@ FAMS = ["uniform", "gaussian", "exponential", "gamma", "beta", "log-uniform", "l
 RULE = ("1-4 parameters, each with one of the seven prior families, parameters in range, values inside the support (incl. within 1e-9 of a "
         "boundary), on it and outside it, with/without the 'positive' flag; non-trivial = at least one value outside a support or a positive-flag hit, "
         "or >= 2 parameters")
-TRUSTED = ["hand model coq/Model/Priors.v tied by correspondence only", "scipy.special.gamma/beta values are passed to the model (section variables G, B in the theorems)",
+TRUSTED = ["translator tools/tr_priors.py (Python ast, fail-closed): the seven prior functions and check_prior's dispatch are regenerated from bioscrape/pid_interfaces.py on every run (coq/Gen/PriorsGen.v) and proved equal to the hand model (Proofs/TiePriors.v, any arithmetic)", "hand model coq/Model/Priors.v (check_prior loop, posterior glue) tied by correspondence", "scipy.special.gamma/beta values are passed to the model (section variables G, B in the theorems)",
            "numpy's scalar exp/log/sqrt vs libm: values compared with relative tolerance 1e-12"]
 ASSUMPTIONS = ["theorems over R; NaN/underflow routes to rejection (log-gaussian at x<=0, far Gaussian tails) are floating-point behaviour checked by correspondence only"]
 
@@ -43,6 +43,14 @@ def gen_term(rng):
     a = rng.choice([1.0, 2.0, 3.0, 4.0, 0.5, 1.5, 2.5, U(0.5, 5)]); b = rng.choice([1.0, 2.0, 3.0, 0.5, 2.5, U(0.5, 5)])
     x = {"in": U(0.001, 0.999), "edge": rng.choice([1e-9, 1 - 1e-9] + ([0.0] if a >= 1 else []) + ([1.0] if b >= 1 else [])), "out": rng.choice([-U(1e-6, 2), 1 + U(1e-6, 2)])}[where]
     return [pos, "beta", a, b, x]
+
+def translate():
+    import importlib.util, os
+    from harness.common import Broken
+    p = os.path.join(os.path.dirname(os.path.dirname(os.path.dirname(os.path.abspath(__file__)))), "tools", "tr_priors.py")
+    spec = importlib.util.spec_from_file_location("tr_priors", p); m = importlib.util.module_from_spec(spec); spec.loader.exec_module(m)
+    try: return m.run()
+    except m.Refuse as e: raise Broken("tr_priors refused: %s" % e, str(e))
 
 def gen_cases(seed, tier):
     rng = random.Random(seed * 31337 + 16)
